@@ -40,6 +40,7 @@ FILES = [
     ("Hk", "src/sender/housekeeping.rs"),
     ("Sender", "src/sender/mod.rs"),
     ("Pkt", "src/sender/packet_handler.rs"),
+    ("BatchRecv", "src/net/batch_recv.rs"),
     ("Seq", "src/sender/sequence.rs"),
     ("Control", "src/control.rs"),
 ]
